@@ -16,10 +16,13 @@ import (
 var curCase atomic.Int64
 var caseCPU0 atomic.Int64
 
+// cpuNow is the USER CPU time of the process: a spinning task burns user time, while
+// system time is dominated by page faults, which take a hundred times longer when sixteen
+// workers fault at once in this VM and must not be mistaken for a hang.
 func cpuNow() time.Duration {
 	var ru syscall.Rusage
 	syscall.Getrusage(syscall.RUSAGE_SELF, &ru)
-	return time.Duration(ru.Utime.Nano() + ru.Stime.Nano())
+	return time.Duration(ru.Utime.Nano())
 }
 
 func caseBegin(i int) {
